@@ -1,40 +1,117 @@
-// Support: models that replace SHA-256's compression step under CBMC (assumption A-hash).
+// Support: recording model of the SHA-256 engine of `bitcoin_hashes` 1.x for CBMC (assumption A-hash).
 //
-// The real `bitcoin_hashes::sha256::HashEngine::{input, from_engine}` code runs unchanged: buffering, block
-// splitting, the 0x80 / zero / 64-bit-length padding and the big-endian state serialisation are all the real code.
-// Only `HashEngine::process_blocks(state, blocks)` (which needs `cpuid` and ~64 rounds per block) is replaced:
+// Measured in this repository: stubbing only `HashEngine::process_blocks` is NOT enough. The real `input` / `from_engine`
+// code slices a 64-byte buffer at `bytes_hashed % 64`; as soon as one branch of the caller is not resolved by constant
+// propagation (an enum read back through a `Vec`), that offset becomes symbolic and `copy_from_slice` / `fill` with symbolic
+// bounds make symbolic execution grow without end (>5 GB, no answer in 10 min for a 1-input transaction).
 //
-//  * `process_blocks_noop`  - digests become the constant IV. For obligations that do not look at digests
-//                             (Ok/Err control flow, panic freedom, message length).
-//  * `process_blocks_fold`  - an *uninterpreted-but-deterministic* stand-in: a cheap, position-sensitive fold of
-//                             every message word into the state. Assumed contract: "a digest is a function of the
-//                             byte stream fed to `input`" (the engine's streaming property). Equal streams give
-//                             equal model digests; a stream that differs in any byte, or in length, or in the order of
-//                             two words, gives a different model digest for some valuation of the symbolic
-//                             inputs, which is what a universally quantified harness needs in order to notice that the wrong
-//                             bytes were hashed. No statement about real SHA-256 values is made.
+// The model therefore replaces the two operations that define the engine's observable behaviour:
+//   * `<sha256::HashEngine as HashEngine>::input(e, data)`  -> `input_fold`:  state' = mix(state, byte) for every byte in
+//     order, length' = length + |data|. `mix(., b)` is a bijection of the 64-bit state for every b and injective in b.
+//   * `sha256::Hash::from_engine(e)`                        -> `from_engine_fold`: digest = state || length || marker.
+// sha256d and sha256t engines are thin wrappers of this engine in the crate, so they are covered (sha256d = model(model(x)),
+// a tagged engine starts from a tag-dependent state).
+// Assumed contract: "a digest is a function of the concatenation of the `input` calls" (the documented streaming
+// property). The model digest is such a function; it is *uninterpreted-but-deterministic*: equal streams give equal
+// digests; streams that differ in length or in one byte position always give different digests, and streams that differ
+// in several positions give different digests for generic values -- so a universally quantified harness that compares
+// a digest produced by the code with the model digest of the stream the specification prescribes fails (for some
+// valuation) whenever the code hashes a different stream. Nothing is claimed about real SHA-256 values.
+//
+// The engine's fields are private; the model reaches them through a layout mirror (same field types, same order, same
+// default representation). `layout_ok()` checks the mirror against the public API and is asserted by a harness.
 #![allow(dead_code)]
+use crate::hashes::sha256;
+use crate::hashes::HashEngine as _;
 
-pub fn process_blocks_noop(_state: &mut [u32; 8], _blocks: &[u8]) {}
+pub struct EngineMirror {
+    buffer: [u8; 64],
+    h: [u32; 8],
+    bytes_hashed: u64,
+}
 
-pub fn process_blocks_fold(state: &mut [u32; 8], blocks: &[u8]) {
-    let mut off = 0;
-    while off + 64 <= blocks.len() {
-        let mut j = 0;
-        while j < 16 {
-            let w = u32::from_be_bytes([blocks[off + 4 * j], blocks[off + 4 * j + 1], blocks[off + 4 * j + 2], blocks[off + 4 * j + 3]]);
-            let i = j % 8;
-            // lane i absorbs words i and i+8 with different rotations; the previous state is rotated so that
-            // successive blocks do not cancel
-            state[i] = state[i].rotate_left(5) ^ w.rotate_left((j as u32) + 1);
-            j += 1;
-        }
-        // couple neighbouring lanes so that moving a word to another lane is visible
+fn mirror_mut(e: &mut sha256::HashEngine) -> &mut EngineMirror {
+    unsafe { &mut *(e as *mut sha256::HashEngine as *mut EngineMirror) }
+}
+fn mirror(e: &sha256::HashEngine) -> &EngineMirror {
+    unsafe { &*(e as *const sha256::HashEngine as *const EngineMirror) }
+}
+
+/// Checked assumption: the mirror has the engine's layout.
+pub fn layout_ok() -> bool {
+    if core::mem::size_of::<EngineMirror>() != core::mem::size_of::<sha256::HashEngine>() { return false; }
+    if core::mem::align_of::<EngineMirror>() != core::mem::align_of::<sha256::HashEngine>() { return false; }
+    let mut e = sha256::HashEngine::new();
+    {
+        let m = mirror(&e);
+        // a fresh engine: IV in `h`, nothing buffered, nothing counted
+        if m.h[0] != 0x6a09e667 || m.h[7] != 0x5be0cd19 || m.bytes_hashed != 0 || m.buffer[0] != 0 || m.buffer[63] != 0 { return false; }
+    }
+    mirror_mut(&mut e).bytes_hashed = 0x0102_0304_0506_0708;
+    e.n_bytes_hashed() == 0x0102_0304_0506_0708
+}
+
+#[inline]
+fn mix(s: u64, b: u8) -> u64 {
+    // bijective in s for fixed b, injective in b for fixed s
+    s.rotate_left(9).wrapping_add(b as u64).wrapping_add(0x9E37_79B9_7F4A_7C15) ^ 0x5555_AAAA_3333_CCCC
+}
+
+pub fn input_fold(e: &mut sha256::HashEngine, data: &[u8]) {
+    let m = mirror_mut(e);
+    let mut s = ((m.h[0] as u64) << 32) | (m.h[1] as u64);
+    let mut i = 0;
+    while i < data.len() {
+        s = mix(s, data[i]);
+        i += 1;
+    }
+    m.h[0] = (s >> 32) as u32;
+    m.h[1] = s as u32;
+    m.bytes_hashed = m.bytes_hashed.wrapping_add(data.len() as u64);
+}
+
+pub fn digest_of_state(s: u64, n: u64) -> [u8; 32] {
+    let mut out = [0u8; 32];
+    let sb = s.to_be_bytes();
+    let nb = n.to_be_bytes();
+    let mut i = 0;
+    while i < 8 {
+        out[i] = sb[i];
+        out[8 + i] = nb[i];
+        i += 1;
+    }
+    out[31] = 0xD1;
+    out
+}
+
+pub fn from_engine_fold(e: sha256::HashEngine) -> sha256::Hash {
+    let m = mirror(&e);
+    let s = ((m.h[0] as u64) << 32) | (m.h[1] as u64);
+    sha256::Hash::from_byte_array(digest_of_state(s, m.bytes_hashed))
+}
+
+// ---- the same function, for oracles: model digest of an explicit byte stream ------------------------------------
+pub const IV_STATE: u64 = 0x6a09e667_bb67ae85;
+
+pub struct Stream {
+    pub s: u64,
+    pub n: u64,
+}
+impl Stream {
+    pub fn new() -> Self { Stream { s: IV_STATE, n: 0 } }
+    pub fn put(&mut self, data: &[u8]) {
         let mut i = 0;
-        while i < 8 {
-            state[i] = state[i].wrapping_add(state[(i + 1) % 8].rotate_left(11));
+        while i < data.len() {
+            self.s = mix(self.s, data[i]);
             i += 1;
         }
-        off += 64;
+        self.n += data.len() as u64;
+    }
+    pub fn digest(&self) -> [u8; 32] { digest_of_state(self.s, self.n) }
+    /// model of sha256d: digest of the digest
+    pub fn digest_d(&self) -> [u8; 32] {
+        let mut t = Stream::new();
+        t.put(&self.digest());
+        t.digest()
     }
 }
